@@ -145,6 +145,16 @@ def gen(depth, ops_un, ops_bin):
                 yield ("b", op, x, y)
 
 
+def gen_skew(ops_un, ops_bin, rootops):
+    """Depth-3 trees with a binary root from rootops: one operand of depth <= 2, the other of depth <= 1 (both orders)."""
+    d1 = list(gen(1, ops_un, ops_bin))
+    for op in rootops:
+        for x in gen(2, ops_un, ops_bin):
+            for y in d1:
+                yield ("b", op, x, y)
+                yield ("b", op, y, x)
+
+
 # ---------------------------------------------------------------- string references (MediaWiki help texts)
 def r_len(s):
     return str(len(s.strip()))
@@ -315,7 +325,7 @@ def work(payload, skip, report):
         ctx = new_ctx()
         seen = set()
         i = 0
-        for e in gen(depth, unops, binops):
+        for e in (gen(depth, unops, binops) if depth < 3 else gen_skew(unops, binops, firstops)):
             if e[0] == "n" or e[1] not in firstops:
                 continue
             try:
@@ -432,7 +442,7 @@ def main(run):
                 "compared with an independent fold (ill-defined ones belong to C05); string functions: every string of length <= %s "
                 "over {a,b,blank} x search strings x all offsets/lengths/counts in [-10,10]; #titleparts grids; plural; formatnum|R "
                 "round trip for all %d shipped locales x %d numeral shapes. distinct = distinct (function, value) pairs."
-                % (len(BIN), len(unops), "" if q else " plus depth 3 over operators of adjacent precedence", "4" if q else "6",
+                % (len(BIN), len(unops), "" if q else " plus depth 3 (binary root, one operand of depth <= 2 and the other of depth <= 1, both orders) over operators of adjacent precedence levels", "4" if q else "6",
                    len(locs), len(numerals(run.tier))),
         "exhaustive": True,
     }
